@@ -6,6 +6,7 @@
 -/
 import AITB.Props.C18c
 namespace AITB.Cassandra
+variable {fl : Flags}
 
 /-! ### splitting -/
 
@@ -150,8 +151,8 @@ theorem entry_line_denotes (D1 D2 D3 : Nat) (amap d1map d3map : IDMap) (rest : L
     (t0 ta t1 t3 tv c1 c2 c3 sp trail : Str) (a d1 d3 : Sel) (v : XRat)
     (h0 : Tok t0) (ha : Tok ta) (h1 : Tok t1) (h3 : Tok t3) (hv : Tok tv)
     (hc1 : ColonSep c1) (hc2 : ColonSep c2) (hc3 : ColonSep c3) (hsp : SpaceSep sp) (htr : ∀ c ∈ trail, c = ' ')
-    (ra : Resolves amap D2 ta a) (r1 : Resolves d1map D1 t1 d1) (r3 : Resolves d3map D3 t3 d3) (hval : stod tv = .ok v) :
-    MatrixLine D1 D2 D3 amap d1map d3map
+    (ra : Resolves fl amap D2 ta a) (r1 : Resolves fl d1map D1 t1 d1) (r3 : Resolves fl d3map D3 t3 d3) (hval : stodS fl tv = .ok v) :
+    MatrixLine fl D1 D2 D3 amap d1map d3map
       (t0 ++ renderToks [(c1, ta), (c2, t1), (c3, t3), (sp, tv)] trail) rest ⟨a, d1, .entry d3 v⟩ 0 := by
   have htrD : AllD (fun c => colonSpace.contains c) trail := by
     intro c hc; rw [htr c hc]; simp [colonSpace]
@@ -173,7 +174,7 @@ theorem entry_line_denotes (D1 D2 D3 : Nat) (amap d1map d3map : IDMap) (rest : L
   have hcount : countColon (t0 ++ renderToks [(c1, ta), (c2, t1), (c3, t3), (sp, tv)] trail) = 3 := by
     simp only [countColon, renderToks, List.count_append, h0.count, ha.count, h1.count, h3.count, hv.count,
       hc1.2, hc2.2, hc3.2, hsp.count, blanks_count htr]
-  refine .entry hcount ?_ ?_ ?_ ?_ ra r1 r3 hval <;> rw [htok] <;> rfl
+  refine .entry hcount ?_ ?_ ?_ ?_ ra r1 r3 hval (fun _ => by rw [htok]; rfl) <;> rw [htok] <;> rfl
 
 /-! ### vectors, as characters -/
 
@@ -187,8 +188,8 @@ theorem mapM_trim_toks (l : List (Str × Str)) (h : ∀ p ∈ l, Tok p.2) : (l.m
 /-- **a line of D3 blank-separated numbers parses to those numbers** (next-line rows, matrix rows) -/
 theorem vector_line_parses (t0 : Str) (l : List (Str × Str)) (trail : Str) (N : Nat) (vs : List XRat)
     (h0 : Tok t0) (hl : ∀ p ∈ l, SpaceSep p.1 ∧ Tok p.2) (htr : ∀ c ∈ trail, c = ' ')
-    (hN : l.length + 1 = N) (hvs : (t0 :: l.map (·.2)).mapM stod = .ok vs) :
-    parseVector (t0 ++ renderToks l trail) N = .ok vs := by
+    (hN : l.length + 1 = N) (hvs : (t0 :: l.map (·.2)).mapM (stodS fl) = .ok vs) :
+    parseVector fl (t0 ++ renderToks l trail) N = .ok vs := by
   have htrD : AllD (fun c => space.contains c) trail := by
     intro c hc; rw [htr c hc]; simp [space]
   have hsplit : split space (t0 ++ renderToks l trail) = t0 :: l.map (·.2) := by
@@ -215,9 +216,9 @@ theorem row_inline_line_denotes (D1 D2 D3 : Nat) (amap d1map d3map : IDMap) (res
     (t0 ta t1 c1 c2 trail : Str) (vals : List (Str × Str)) (a d1 : Sel) (vs : List XRat)
     (h0 : Tok t0) (ha : Tok ta) (h1 : Tok t1) (hc1 : ColonSep c1) (hc2 : ColonSep c2)
     (hvals : ∀ p ∈ vals, SpaceSep p.1 ∧ Tok p.2) (htr : ∀ c ∈ trail, c = ' ')
-    (ra : Resolves amap D2 ta a) (r1 : Resolves d1map D1 t1 d1)
-    (hN : vals.length = D3) (hvs : (vals.map (·.2)).mapM stod = .ok vs) :
-    MatrixLine D1 D2 D3 amap d1map d3map
+    (ra : Resolves fl amap D2 ta a) (r1 : Resolves fl d1map D1 t1 d1)
+    (hN : vals.length = D3) (hvs : (vals.map (·.2)).mapM (stodS fl) = .ok vs) :
+    MatrixLine fl D1 D2 D3 amap d1map d3map
       (t0 ++ renderToks ((c1, ta) :: (c2, t1) :: vals) trail) rest ⟨a, d1, .row vs⟩ 0 := by
   have htrD : AllD (fun c => colonSpace.contains c) trail := by
     intro c hc; rw [htr c hc]; simp [colonSpace]
@@ -276,9 +277,9 @@ theorem header_tokens (t0 : Str) (l : List (Str × Str)) (trail : Str) (h0 : Tok
 theorem row_next_line_denotes (D1 D2 D3 : Nat) (amap d1map d3map : IDMap) (rest : List Str)
     (t0 ta t1 c1 c2 trail vline : Str) (a d1 : Sel) (vs : List XRat)
     (h0 : Tok t0) (ha : Tok ta) (h1 : Tok t1) (hc1 : ColonSep c1) (hc2 : ColonSep c2) (htr : ∀ c ∈ trail, c = ' ')
-    (ra : Resolves amap D2 ta a) (r1 : Resolves d1map D1 t1 d1) (hD : D3 ≠ 0)
-    (hv : parseVector vline D3 = .ok vs) :
-    MatrixLine D1 D2 D3 amap d1map d3map (t0 ++ renderToks [(c1, ta), (c2, t1)] trail) (vline :: rest) ⟨a, d1, .row vs⟩ 1 := by
+    (ra : Resolves fl amap D2 ta a) (r1 : Resolves fl d1map D1 t1 d1) (hD : D3 ≠ 0)
+    (hv : parseVector fl vline D3 = .ok vs) :
+    MatrixLine fl D1 D2 D3 amap d1map d3map (t0 ++ renderToks [(c1, ta), (c2, t1)] trail) (vline :: rest) ⟨a, d1, .row vs⟩ 1 := by
   obtain ⟨htok, hcount⟩ := header_tokens t0 [(c1, ta), (c2, t1)] trail h0
     (by intro p hp; simp only [List.mem_cons, List.mem_nil_iff, or_false] at hp; rcases hp with rfl | rfl; exact ⟨hc1, ha⟩; exact ⟨hc2, h1⟩) htr
   refine .rowNext hcount ?_ ?_ ra r1 ?_ hD rfl hv
@@ -290,8 +291,8 @@ theorem row_next_line_denotes (D1 D2 D3 : Nat) (amap d1map d3map : IDMap) (rest 
 theorem matrix_lines_denote (D1 D2 D3 : Nat) (amap d1map d3map : IDMap) (rest : List Str)
     (t0 ta c1 trail : Str) (a : Sel) (rows : List (List XRat))
     (h0 : Tok t0) (ha : Tok ta) (hc1 : ColonSep c1) (htr : ∀ c ∈ trail, c = ' ')
-    (ra : Resolves amap D2 ta a) (hl : rows.length = D1) (hle : D1 ≤ rest.length) (hrows : RowsDenote D3 (rest.take D1) rows) :
-    MatrixLine D1 D2 D3 amap d1map d3map (t0 ++ renderToks [(c1, ta)] trail) rest ⟨a, .all, .matrix rows⟩ D1 := by
+    (ra : Resolves fl amap D2 ta a) (hl : rows.length = D1) (hle : D1 ≤ rest.length) (hrows : RowsDenote fl D3 (rest.take D1) rows) :
+    MatrixLine fl D1 D2 D3 amap d1map d3map (t0 ++ renderToks [(c1, ta)] trail) rest ⟨a, .all, .matrix rows⟩ D1 := by
   obtain ⟨htok, hcount⟩ := header_tokens t0 [(c1, ta)] trail h0
     (by intro p hp; simp only [List.mem_cons, List.mem_nil_iff, or_false] at hp; subst hp; exact ⟨hc1, ha⟩) htr
   refine .matrix hcount ?_ ra hl hle hrows
@@ -340,5 +341,55 @@ theorem stoul_digits (ds : Str) (hne : ds ≠ []) (hd : ∀ c ∈ ds, isDigit c 
     simp only [htw]
     have : ¬ (digitsVal (c :: r) ≥ two64) := by omega
     simp [this]
+
+/-- … and it is converted whole: `pos` is the token length, so the strict helper accepts it too -/
+theorem stoulPos_digits (ds : Str) (hne : ds ≠ []) (hd : ∀ c ∈ ds, isDigit c = true) : stoulPos ds = ds.length := by
+  have hns : ∀ c ∈ ds, isSpace c = false := by
+    intro c hc
+    have := hd c hc
+    simp only [isDigit, Bool.and_eq_true, decide_eq_true_eq] at this
+    have h1 : '0'.toNat ≤ c.toNat := this.1
+    have hc32 : c ≠ ' ' := by intro e; subst e; revert h1; decide
+    have hc9 : c ≠ '\t' := by intro e; subst e; revert h1; decide
+    have hc10 : c ≠ '\n' := by intro e; subst e; revert h1; decide
+    have hc11 : c ≠ '\x0b' := by intro e; subst e; revert h1; decide
+    have hc12 : c ≠ '\x0c' := by intro e; subst e; revert h1; decide
+    have hc13 : c ≠ '\r' := by intro e; subst e; revert h1; decide
+    simp [isSpace, hc32, hc9, hc10, hc11, hc12, hc13]
+  unfold stoulPos
+  rw [dropWhile_noSpace ds hns]
+  cases ds with
+  | nil => exact absurd rfl hne
+  | cons c r =>
+    have hcd := hd c List.mem_cons_self
+    have hcs : isSpace c = false := hns c List.mem_cons_self
+    have hm : c ≠ '-' := by intro e; subst e; revert hcd; decide
+    have hp : c ≠ '+' := by intro e; subst e; revert hcd; decide
+    have hsl : signLen (c :: r) = 0 := by
+      unfold signLen
+      split
+      · rename_i heq; injection heq with h1 _; exact absurd h1 hm
+      · rename_i heq; injection heq with h1 _; exact absurd h1 hp
+      · rfl
+    have hsign : takeSign (c :: r) = (false, c :: r) := by
+      unfold takeSign
+      split
+      · rename_i heq; injection heq with h1 _; exact absurd h1 hm
+      · rename_i heq; injection heq with h1 _; exact absurd h1 hp
+      · rfl
+    have htwg : ∀ (l : Str), (∀ x ∈ l, isDigit x = true) → l.takeWhile isDigit = l := by
+      intro l
+      induction l with
+      | nil => intro _; rfl
+      | cons x t ih =>
+        intro hx
+        simp [List.takeWhile, hx x List.mem_cons_self, ih (fun y hy => hx y (List.mem_cons_of_mem _ hy))]
+    simp only [hsl, hsign, htwg (c :: r) hd]
+    simp [List.takeWhile, hcs]
+
+theorem stoulS_digits (fl : Flags) (ds : Str) (hne : ds ≠ []) (hd : ∀ c ∈ ds, isDigit c = true) (hlt : digitsVal ds < two64) :
+    stoulS fl ds = .ok (digitsVal ds) := by
+  unfold stoulS
+  simp [stoul_digits ds hne hd hlt, stoulPos_digits ds hne hd, bind, Except.bind, pure, Except.pure]
 
 end AITB.Cassandra
